@@ -46,12 +46,15 @@ static std::string strip_lines(const std::string& t, char kind)
   return o;
 }
 
+static int g_flags = 0, g_timeout = 0;
 static std::string do_scan(ys_rules* R, ys_scanner* sc, const bytes& b, int entry, const std::vector<uint32_t>& sizes,
                            uint64_t notready)
 {
   ys_scan_opts o;
   memset(&o, 0, sizeof o);
   o.entry = entry;
+  o.flags = g_flags;      // every entry point of a case gets the same flags and timeout
+  o.timeout = g_timeout;
   o.with_strings = 1;
   o.nblocks = (int) sizes.size();
   o.block_sizes = sizes.data();
@@ -84,6 +87,12 @@ std::string run_case(Src& s, CaseInfo& ci)
   // the kind of buffer is drawn first: over the executable samples (tens of KiB) no regexps are generated
   // (an atom-less one such as /.*./ costs seconds per scan there, and a case is hundreds of scans); the
   // fixed rules still run the regexp engine on them
+  {
+    // report flags / fast mode / a generous timeout: arguments every entry point has to hand on unchanged
+    static const int F[] = {0, 0, 8, 16, 24, 1, 9};
+    g_flags = F[s.range(0, 6)];
+    g_timeout = s.coin(30) ? 600 : 0;
+  }
   const size_t bk = s.weighted({30, 12, 10, 8, 40});
   g_gen_no_regexp = bk >= 1 && bk <= 3;
   GSet gs = gen_ruleset(s, go);
@@ -166,7 +175,7 @@ std::string run_case(Src& s, CaseInfo& ci)
   ci.desc += strf("buffer %s [%zu bytes] \"%s\"%s\nblocks:", kind.c_str(), B.size(), esc(B.substr(0, 300)).c_str(),
                   B.size() > 300 ? "..." : "");
   for (auto z : sizes) ci.desc += strf(" %u", z);
-  ci.desc += strf("\n%zu not-ready schedules\n", schedules.size());
+  ci.desc += strf("\n%zu not-ready schedules; flags=%d timeout=%d for every entry point\n", schedules.size(), g_flags, g_timeout);
   ci.hash = hstr(ci.desc);
   checkpoint(s, ci.desc);
 
